@@ -11,6 +11,8 @@ import ApdVerif.Spec.Order
 import ApdVerif.Oracle.Exact
 import ApdVerif.Oracle.Ops
 import ApdVerif.Driver.Proto
+import ApdVerif.Model.Decompose
+import ApdVerif.Lemmas.SqrtDefs
 /-!
 # Model driver: reads harness lines on stdin, runs the model and the specification oracles,
 prints one line per problem and a summary.  Core Lean only (compiled as `lean_exe driver`).
@@ -171,9 +173,30 @@ def handleCtxOpCore (id op p emax emin traps mode xs ys ia ds fls errs auxs : St
   pf := pf + ol.length
   pure (out, mm, pf)
 
+/-- observation point inside `Context.Sqrt` (hook `verifTape("sqrt.iter", …)` after the precision-doubling loop):
+the Newton iterate the real call ended its loop with is compared, field by field, with `SqrtD.iter` — the object
+the correctness theorem `C11_sqrt_correct_partial` is about.  `T=` (no observation) must coincide with the
+model taking a special-value exit or failing inside the loop. -/
+def sqrtObservation (id p emax emin traps mode xs tapes : String) : Option (List String × Nat × Nat) := do
+  let c ← parseCtx p emax emin traps mode
+  let x := (← parseDec xs).d
+  let reach : Bool := (rootSpecials c x 2).isNone && !(Apd.SqrtD.iter c x).1.failed
+  if tapes == "T=" then
+    if reach then some ([s!"{id} MISMATCH iter model= reaches the end of the loop with {showDec (Apd.SqrtD.iter c x).2}, the implementation did not"], 1, 0)
+    else some ([], 0, 0)
+  else if tapes.startsWith "T=a" then
+    let a := (← parseDec (tapes.drop 3).toString).d
+    if reach && (Apd.SqrtD.iter c x).2 == a then some ([], 0, 0)
+    else some ([s!"{id} MISMATCH iter model= {if reach then showDec (Apd.SqrtD.iter c x).2 else "no-iterate"}"], 1, 0)
+  else none
+
 /-- handle one `ctxop` line; returns the problem lines -/
 def handleCtxOp (id : String) (t : List String) : Option (List String × Nat × Nat) :=
   match t with
+  | ["sqrt", p, emax, emin, traps, mode, xs, ys, ia, "=>", ds, fls, errs, auxs, tapes] => do
+    let core ← handleCtxOpCore id "sqrt" p emax emin traps mode xs ys ia ds fls errs auxs none
+    let obs ← sqrtObservation id p emax emin traps mode xs tapes
+    pure (core.1 ++ obs.1, core.2.1 + obs.2.1, core.2.2 + obs.2.2)
   | [op, p, emax, emin, traps, mode, xs, ys, ia, "=>", ds, fls, errs, auxs, tapes] =>
     match parseTape tapes with
     | none => none
@@ -952,6 +975,49 @@ def handleFloat (id : String) (t : List String) : Option (List String × Nat × 
   | [_, "=>", _, w] => some (propfail id "C13" s!"float conversion failed: {w}")
   | _ => none
 
+/-- `decomp d cap pre pad badform => form neg hex exp r1 r2 r3 operand` : Decompose into a buffer of capacity `cap`,
+Compose into a destination holding `pre`; again from the coefficient padded with `pad` zero bytes; again with an
+unknown form byte (C13; C06 for the operand and the rejected destination) -/
+def handleDecomp (id : String) (t : List String) : Option (List String × Nat × Nat) :=
+  match t with
+  | [ds, caps, pres, pads, bads, "=>", fs, ns, hxs, es, r1, r2, r3, op] => do
+    let d := (← parseDec ds).d
+    let pre := (← parseDec pres).d
+    let cap ← caps.toNat?
+    let pad ← pads.toNat?
+    let bad ← bads.toNat?
+    let f ← fs.toNat?
+    let e ← es.toInt?
+    let co ← if hxs == "-" then some [] else unhex hxs.toList
+    let parts : Apd.Decomp.Parts := { form := UInt8.ofNat f, neg := ns == "1", coeff := co, exp := e }
+    let mut res : List String × Nat × Nat := ([], 0, 0)
+    -- correspondence: Decompose, and the three Compose calls on the parts the implementation returned
+    if Apd.Decomp.decomposeBuf d cap != some parts then
+      res := merge res ([s!"{id} MISMATCH decomp model= {repr (Apd.Decomp.decomposeBuf d cap)}"], 1, 0)
+    let showC (o : Option Dec) : String := match o with | some y => showDec y | none => "compose-err"
+    let m1 := Apd.Decomp.compose pre parts
+    if showC m1 != r1 then res := merge res ([s!"{id} MISMATCH compose model= {showC m1}"], 1, 0)
+    let m2 := Apd.Decomp.compose pre { parts with coeff := List.replicate pad 0 ++ co }
+    if showC m2 != r2 then res := merge res ([s!"{id} MISMATCH compose(padded) model= {showC m2}"], 1, 0)
+    -- the property, on the implementation's outputs
+    let want : Form := if d.form == .nanSignaling then .nan else d.form
+    match parseDec r1 with
+    | some y =>
+      let y := y.d
+      if !(y.form == want && y.neg == d.neg && (d.form != .finite || (y.coeff == d.coeff && y.exp == d.exp))) then
+        res := merge res (propfail id "C13" "Compose(Decompose(d)) does not reproduce d")
+    | none => res := merge res (propfail id "C13" "Compose rejects what Decompose returned")
+    if r2 != r1 then res := merge res (propfail id "C13" "Compose of a zero-padded coefficient differs")
+    if r3 != "rejected:" ++ showDec pre then
+      res := merge res (propfail id "C13" "Compose with an unknown form byte is not rejected with the destination untouched")
+    if d.form == .finite && (co.head? == some 0 || (d.coeff == 0 && !co.isEmpty)) then
+      res := merge res (propfail id "C13" "Decompose returns a coefficient with a leading zero byte")
+    if op != "operand-same" then res := merge res (propfail id "C06" "Decompose modified its operand")
+    return res
+  | _ :: _ :: _ :: _ :: _ :: "=>" :: [w] =>
+    if w == "PANIC" || w == "HANG" then some (propfail id "C04" s!"Decompose/Compose {w}") else none
+  | _ => none
+
 def handleLine (line : String) : Option (List String × Nat × Nat) :=
   match line.splitOn " " with
   | id :: "ctxop" :: rest => handleCtxOp id rest
@@ -1015,6 +1081,7 @@ def handleLine (line : String) : Option (List String × Nat × Nat) :=
      | _, _, _, _, _ => none)
   | id :: "text" :: rest => handleText id rest
   | id :: "float" :: rest => handleFloat id rest
+  | id :: "decomp" :: rest => handleDecomp id rest
   | id :: "api" :: rest =>
     (match rest.getLast? with
      | some "ok" => some ([], 0, 0)
